@@ -1449,7 +1449,17 @@ func (f *Frame) siteMatches(s *SiteSpec, kind string, ins ssa.Instruction) bool 
 		}
 		name := calleeName(ci.Common())
 		if target != "" && name != target && !strings.HasSuffix(name, "."+target) {
-			return false
+			// an interface method may be qualified by the name of the interface type:
+			// invoke.Cache.Purge is Purge called on a value of (some package's) type Cache
+			qual := ""
+			if c := ci.Common(); c.IsInvoke() {
+				if nt, ok := types.Unalias(c.Value.Type()).(*types.Named); ok {
+					qual = "invoke." + nt.Obj().Name() + "." + c.Method.Name()
+				}
+			}
+			if qual == "" || qual != target {
+				return false
+			}
 		}
 	case "send", "recv", "close", "store", "mapupdate", "mapdelete", "maplookup":
 		if target != "" && !f.siteOperandMatches(ins, target) {
